@@ -4,6 +4,7 @@ import (
 	"fmt"
 	"math"
 	"strings"
+	"sync"
 	"time"
 
 	"harness/sx"
@@ -404,6 +405,37 @@ func hasNaN(v *variants.Variant) bool {
 	return false
 }
 
+var c20Once sync.Once
+var c20Deep string
+
+// probeDeepArrays (once per run): arrays nested 1 .. 600 levels deep equal their clone and an identical rebuild, differ
+// from the array one level deeper or with another leaf, symmetrically
+func probeDeepArrays() string {
+	build := func(d int, leaf int) *variants.Variant {
+		v := variants.VariantFromInteger(leaf)
+		for i := 0; i < d; i++ {
+			v = variants.VariantFromArray([]*variants.Variant{variants.VariantFromString("x"), v})
+		}
+		return v
+	}
+	for _, d := range []int{1, 2, 10, 31, 32, 33, 63, 64, 65, 66, 100, 129, 257, 600} {
+		a, b, c, e := build(d, 7), build(d, 7), build(d, 8), build(d+1, 7)
+		switch {
+		case !a.Equals(a.Clone()) || !a.Clone().Equals(a):
+			return fmt.Sprintf("an array nested %d levels deep does not equal its clone", d)
+		case !a.Equals(b) || !b.Equals(a):
+			return fmt.Sprintf("two identically built arrays nested %d levels deep are not equal", d)
+		case !a.Equals(a):
+			return fmt.Sprintf("an array nested %d levels deep does not equal itself", d)
+		case a.Equals(c) || c.Equals(a):
+			return fmt.Sprintf("arrays nested %d levels deep with different innermost elements are equal", d)
+		case a.Equals(e) || e.Equals(a):
+			return fmt.Sprintf("an array nested %d levels deep equals one nested %d levels deep", d, d+1)
+		}
+	}
+	return ""
+}
+
 func runC20(in sx.SX) (sx.SX, string) {
 	v := []*variants.Variant{variants.EmptyVariant(), variants.EmptyVariant(), variants.EmptyVariant(), variants.EmptyVariant()}
 	lists := [][]*variants.Variant{make([]*variants.Variant, 0, 4), nil} // the second caller list starts as the nil slice
@@ -565,6 +597,10 @@ func runC20(in sx.SX) (sx.SX, string) {
 				fail = fmt.Sprintf("step %d: the copy v%d does not equal its original v%d", step, a, j)
 			}
 		}
+	}
+	c20Once.Do(func() { c20Deep = probeDeepArrays() })
+	if fail == "" {
+		fail = c20Deep
 	}
 	return out, fail
 }
